@@ -76,7 +76,7 @@ def fill_scenarios(rng, quick):
     """pixman_fill / pixman_blt sweeps.  Each scenario: one raw buffer pair, ~24 calls."""
     execs = []
     k = 0
-    per_bpp = 14 if quick else 130
+    per_bpp = 14 if quick else 260
     for bpp in (1, 4, 8, 16, 24, 32):
         for si in range(per_bpp):
             lines = ["R fill%d_%d" % (bpp, k)]
@@ -644,11 +644,11 @@ def run(prop, args):
         fmts = DIRECT + ["r8g8b8", "a4", "a2r10g10b10", "a1r5g5b5", "a4r4g4b4", "r3g3b2", "x14r6g6b6", "rgba_float"]
         if not quick:
             fmts += ["b8g8r8", "x2b10g10r10", "a2r2g2b2", "x4a4", "r1g2b1", "a1r1g1b1", "rgb_float", "x1r5g5b5", "x4b4g4r4"]
-        execs += fillboxes_scenarios(rng, quick, fmts, 4 if quick else 26)
+        execs += fillboxes_scenarios(rng, quick, fmts, 4 if quick else 50)
         chains = CHAINS
         per_chain = lambda ci: execs if (not quick or ci in (0, 3)) else execs[ci::2]
     else:
-        behs, r = tlc_behaviours(200 if quick else 2400, 11 if quick else 13, args.seed)
+        behs, r = tlc_behaviours(200 if quick else 4800, 11 if quick else 13, args.seed)
         chk.add_tlc(r, "behaviour generation (CompositeGen, -generate)")
         chk.sample({"tlc_generated_behaviour": behs[0][:5]})
         chk.extra["tlc_generated_behaviours"] = len(behs)
@@ -660,7 +660,7 @@ def run(prop, args):
             far = (k % 3 == 2)
             execs.append(embed_behaviour(rng, beh, "gen%d" % k, fmt, far, OPS_BASIC if k % 4 else OPS_ALL))
             k += 1
-        for i in range(550 if quick else 7000):
+        for i in range(550 if quick else 14000):
             fmt = formats[(i * 7 + 3) % len(formats)] if i % 5 else rng.choice(A_FORMATS)
             execs.append(embed_behaviour(rng, random_behaviour(rng), "rnd%d" % i, fmt, i % 7 == 6,
                                          ["SRC", "SRC", "CLEAR", "OVER", "IN", "OUT", "ADD", "XOR"] if i % 3 else OPS_BASIC))
@@ -673,7 +673,7 @@ def run(prop, args):
     exe, px = vf.build_driver(drv, "plain")
     chk.extra["build"] = px["hash"]
     traces = []
-    nb = (4 if prop == "C19" else 6) * (1 if quick else 3)
+    nb = (4 if prop == "C19" else 6) * (1 if quick else 4)
     for ci, chain in enumerate(chains):
         part = [rename(e, chain.replace(" ", "+") or "default") for e in per_chain(ci)]
         for bi in range(nb):
